@@ -241,6 +241,17 @@ def run_hybrid(first, tier, res):
                         bad("C19.elision", "default-not-omitted", dict(feat, field_kind=k, default_kind=dlab, renamed=pyname != xoname), case, "field %s (%s) equals its declared default %r but is in the dictionary: %r" % (pyname, k, dv, d.get(pyname)))
                     if not equal and not present:
                         bad("C19.elision", "non-default-omitted", dict(feat, field_kind=k, default_kind=dlab, renamed=pyname != xoname), case, "field %s (%s) = %r differs from its default %r but is missing" % (pyname, k, v, dv))
+                # history: the object is WRITTEN after its dictionary was taken (every field gets another value of the menu
+                # where one fits); the dictionary describes the state in which it was taken
+                for (pn, xn, k), (vlab, v), cand in zip(fields, choice, vals):
+                    w = next((c[1] for c in cand if not veq(c[1], v)), None)
+                    if w is None or (isinstance(w, tuple) and w and w[0] == "bind"):
+                        continue
+                    try:
+                        setattr(h, pn, w() if callable(w) else w)
+                        res.events["write-after-to_dict"] += 1
+                    except Exception:
+                        pass  # a value of another size does not fit: C11's business
                 res.transitions += 1
                 res.events["from_dict"] += 1
                 try:
@@ -258,13 +269,14 @@ def run_hybrid(first, tier, res):
                 res.events["to_dict"] += 1
                 res.events["from_dict"] += 1
                 try:
+                    now = read_hybrid(h, fields)  # (the object has been written since `before` was read)
                     d2 = h.to_dict(copy_to_cpu=False)
                     after4 = read_hybrid(H.from_dict(d2), fields)
                 except Exception as e:
                     bad("C19.from_dict", "from_dict-raises:" + common.exc_failure(e), dict(feat, copy_to_cpu=False), case, repr(e))
                     continue
-                if not veq(before, after4):
-                    bad("C19.roundtrip", "rebuilt-object-differs", dict(feat, copy_to_cpu=False), case, "to_dict(copy_to_cpu=False): %r -> %r" % (before, after4))
+                if not veq(now, after4):
+                    bad("C19.roundtrip", "rebuilt-object-differs", dict(feat, copy_to_cpu=False), case, "to_dict(copy_to_cpu=False): %r -> %r" % (now, after4))
                     continue
                 # the same rebuild into memory that was used before (a freed region full of old bytes) and over a live object
                 ok = True
